@@ -234,7 +234,9 @@ PROPS = {
                   # given before: content type and encoding are decided from the document and the
                   # configured defaults alone
                   K("template.py::BaseTemplate.write@str"), K("template.py::BaseTemplate.write@bytes"),
-                  K("template.py::BaseTemplateFile.read@body"), K("zpt/template.py::PageTemplate.parse")],
+                  K("template.py::BaseTemplateFile.read@body"), K("zpt/template.py::PageTemplate.parse"),
+                  # the compiled flag is down while cook_check compiles (call-site precondition of cook)
+                  K("template.py::BaseTemplateFile.cook_check")],
         "not_decided": ["thread interleavings (schedule-quantified; no schedule exploration in this family)",
                         "cross-process identity of output (follows from alpha-equivalence of generated "
                         "code; not checked yet)"],
@@ -308,6 +310,9 @@ PROPS = {
          K("k3::S-Strict-rejects-pipe-tail"), K("k3::S-Strict-rejects-pipe-middle"),
          K("k3::S-Strict-rejects-second-macro"), K("zpt/template.py::PageTemplateFile.__init__.post_init"),
          K("k3::S-Deferred-switch"),
+         # "raises whenever rendering reaches it": a named tal:attributes entry is evaluated (once) whatever
+         # a dictionary entry later in the statement holds
+         K("k3::S-Attribute-dict"), K("k3::S-Attribute-dict-first"),
          U('pyvc.frames', 'strict_reads_frame', 'strict.reads_frame'),
          U('pyvc.frames', 'strict_identity', 'strict_identity', needs_k3=True),
          U('pyvc.frames', 'cook_error_frame', '_cook.error_frame')],
